@@ -451,18 +451,47 @@ func (c *Ctx) c17Decorators() {
 		}
 		R.Check(okCtor && all, "C17.R2", tn+":constructor", c.atFn(ctor), "the constructor returns nil for nil, otherwise a fresh wrapper holding the cause and the given decoration", fname(ctor)+": nil on the nil edge; fresh allocation with cause and decoration fields stored from the parameters", fname(ctor)+" is not of that shape (nil handling, freshness, or a field is not initialised from its parameter)")
 
-		// getter
-		var getter *ssa.Function
+		// getter: the function that type-asserts to the wrapper, or the function that hands its parameter to a shared
+		// chain walker (an instance of a generic helper) which does
+		var getter, walker *ssa.Function
 		var assert *ssa.TypeAssert
-		for _, fn := range c.P.ScopeFuncs() {
-			if !c.P.InPkg(fn, "errors") || fn.Parent() != nil {
-				continue
-			}
+		var finder *ssa.Call // getter's call of the walker (nil when the getter walks the chain itself)
+		assertsTo := func(fn *ssa.Function) *ssa.TypeAssert {
 			for _, b := range fn.Blocks {
 				for _, in := range b.Instrs {
 					if ta, ok := in.(*ssa.TypeAssert); ok && ta.CommaOk {
 						if p, ok := ta.AssertedType.(*types.Pointer); ok && p.Elem() == types.Type(d.typ) {
-							getter, assert = fn, ta
+							return ta
+						}
+					}
+				}
+			}
+			return nil
+		}
+		for _, fn := range c.P.ScopeFuncs() {
+			if !c.P.InPkg(fn, "errors") || fn.Parent() != nil {
+				continue
+			}
+			if ta := assertsTo(fn); ta != nil {
+				getter, walker, assert = fn, fn, ta
+			}
+		}
+		if getter == nil {
+			var insts []*ssa.Function
+			for fn := range c.P.AllFuncs {
+				if fn.Origin() != nil && fn.Origin() != fn && c.P.InPkg(fn, "errors") && len(fn.Params) == 1 && assertsTo(fn) != nil {
+					insts = append(insts, fn)
+				}
+			}
+			sort.Slice(insts, func(i, j int) bool { return insts[i].String() < insts[j].String() })
+			for _, w := range insts {
+				for _, fn := range c.P.ScopeFuncs() {
+					if !c.P.InPkg(fn, "errors") || fn.Parent() != nil || len(fn.Params) != 1 {
+						continue
+					}
+					for _, ci := range callsIn(fn, calleeIs(w)) {
+						if call, ok := ci.(*ssa.Call); ok && getter == nil && call.Call.Args[0] == ssa.Value(fn.Params[0]) {
+							getter, walker, assert, finder = fn, w, assertsTo(w), call
 						}
 					}
 				}
@@ -478,13 +507,13 @@ func (c *Ctx) c17Decorators() {
 		// parameter and is replaced by errors.Unwrap of itself (iterative idiom)
 		var cur ssa.Value
 		iterative := false
-		if len(getter.Params) == 1 {
-			cur = getter.Params[0]
+		if len(walker.Params) == 1 {
+			cur = walker.Params[0]
 			if ph, isPhi := assert.X.(*ssa.Phi); isPhi {
 				fromParam, fromUnwrap, other := false, false, false
 				for _, e := range ph.Edges {
 					switch {
-					case e == ssa.Value(getter.Params[0]):
+					case e == ssa.Value(walker.Params[0]):
 						fromParam = true
 					default:
 						if call, isCall := e.(*ssa.Call); isCall && core.FuncIs(core.StaticCallee(call), "errors", "Unwrap") && call.Call.Args[0] == ssa.Value(ph) {
@@ -520,7 +549,7 @@ func (c *Ctx) c17Decorators() {
 		fail := boolEdges(okv, false)
 		// unwrapping happens only on the failure edge
 		var unwraps []*ssa.Call
-		for _, ci := range core.Calls(getter) {
+		for _, ci := range core.Calls(walker) {
 			if call, ok := ci.(*ssa.Call); ok && core.FuncIs(core.StaticCallee(call), "errors", "Unwrap") {
 				unwraps = append(unwraps, call)
 				R.Check(anyDominates(fail, call.Block()) && call.Call.Args[0] == cur, "C17.R2", gk+":unwrap-after-test", c.at(call), "the chain is unwrapped only after the error itself was tested and did not carry the decoration", "errors.Unwrap(err) is dominated by the assertion's failure edge", "errors.Unwrap is reachable before / without the type test failing, or unwraps something other than the parameter")
@@ -529,18 +558,49 @@ func (c *Ctx) c17Decorators() {
 		R.Check(len(unwraps) >= 1, "C17.R2", gk+":walks-chain", c.atFn(getter), "the getter walks the wrap chain (errors.Unwrap), so decorations under fmt-style wrapping are found", sprintf("%d errors.Unwrap call(s)", len(unwraps)), "the getter never calls errors.Unwrap")
 		// success edge returns the asserted value's own decoration directly
 		nSucc := 0
+		var wrapper ssa.Value = val
+		if finder != nil {
+			// the shared walker hands back (the asserted wrapper, true) on its success edge and ok == false elsewhere;
+			// the getter's own success edge is the ok result of that call
+			R.Analysed(fname(walker))
+			shape := true
+			for _, r := range returns(walker) {
+				if len(r.Results) != 2 {
+					shape = false
+					continue
+				}
+				if anyDominates(succ, r.Block()) {
+					k, isC := core.ConstBool(r.Results[1])
+					shape = shape && core.Strip(r.Results[0]) == ssa.Value(val) && isC && k
+				} else {
+					k, isC := core.ConstBool(r.Results[1])
+					shape = shape && isC && !k
+				}
+			}
+			R.Check(shape, "C17.R2", gk+":walker-hands-back-match", c.atFn(walker), "the shared chain walker returns the first wrapper of the wanted type with ok == true, and ok == false when none is found", "returns (asserted value, true) on the assertion's success edge, (_, false) otherwise", "the chain walker's results are not (the asserted wrapper, true) on the success edge and (_, false) elsewhere")
+			wrapper, succ = nil, nil
+			for _, r := range core.Referrers(finder) {
+				if e, ok := r.(*ssa.Extract); ok {
+					if e.Index == 0 {
+						wrapper = e
+					} else {
+						succ = boolEdges(e, true)
+					}
+				}
+			}
+		}
 		for _, r := range returns(getter) {
 			if !anyDominates(succ, r.Block()) {
 				continue
 			}
 			nSucc++
-			direct := c.isOwnDecoration(r.Results[0], val, d)
+			direct := wrapper != nil && c.isOwnDecoration(r.Results[0], wrapper, d)
 			R.Check(direct, "C17.R2", gk+":outermost-wins", c.at(r), "when the error itself carries the decoration the getter returns exactly that value (the outermost decoration wins)", "the success edge returns the asserted wrapper's field(s) directly", "the value returned on the success edge is not the asserted wrapper's own decoration (e.g. it is combined with inner values): an inner decoration can override the outermost one")
 		}
 		R.Check(nSucc >= 1, "C17.R2", gk+":success-return", c.atFn(getter), "the getter returns on the success edge of its type test", sprintf("%d return(s) on the success edge", nSucc), "no return is dominated by the success edge of the type test")
 		// recursion on the unwrapped error
 		rec := false
-		for _, ci := range callsIn(getter, calleeIs(getter)) {
+		for _, ci := range callsIn(walker, calleeIs(walker)) {
 			if len(unwraps) > 0 && ci.Common().Args[0] == ssa.Value(unwraps[0]) {
 				rec = true
 			}
@@ -561,12 +621,12 @@ func (c *Ctx) c17Decorators() {
 			// fmt.Errorf with several %w and errors.Join produce wrappers whose Unwrap returns a list; errors.Unwrap
 			// returns nil for them, so a walk by errors.Unwrap stops there
 			tree := false
-			for _, ci := range core.Calls(getter) {
+			for _, ci := range core.Calls(walker) {
 				if core.FuncIs(core.StaticCallee(ci), "errors", "As") {
 					tree = true
 				}
 			}
-			for _, b := range getter.Blocks {
+			for _, b := range walker.Blocks {
 				for _, in := range b.Instrs {
 					if ta, ok := in.(*ssa.TypeAssert); ok {
 						if it, ok := ta.AssertedType.Underlying().(*types.Interface); ok && it.NumMethods() == 1 && it.Method(0).Name() == "Unwrap" {
